@@ -31,12 +31,17 @@ PROP = {
                'reference SGR machine Decoder/SgrRef.v)',
  'level_text': 'Coq theorems over executable models of the SGR encoder (true colour), the SGR parameter interpreter, FaceModify::apply, '
                'the command tokeniser over the regenerated production automaton and the escape-sequence cell writer: every modification '
-               'record / face with opaque colours and every character except ESC is read back as itself; for every history of well-formed '
-               'SGR sequences interleaved with text and every chunking the cells carry the faces of a reference SGR state machine written '
-               'from ECMA-48 / xterm. Models tied to the code by a differential run; tables and the automaton are regenerated each run.',
+               'record / face with opaque colours and every character except ESC is read back as itself; for every history of SGR sequences '
+               'whose parameters are all completely defined by the standards (C06_semantics_wf: no truncated or out-of-range colour '
+               'specification, no undefined sub-parameter such as 4:6 or 1:2, numbers of at most 19 digits) interleaved with text, and '
+               'every chunking, the cells carry the faces of a reference SGR state machine written from ECMA-48 / xterm, provided none of '
+               '7/27/39/49 occurs; with those (known finding) the cells carry the faces of the same machine with these four parameters '
+               'as no-ops (C06_semantics_recorded), so the finding is pinned exactly and nothing is suppressed. Models tied to the code by '
+               'a differential run; tables and the automaton are regenerated each run.',
  'level_note': 'Trusted: Coq kernel + vm_compute; translate/c06gen.py and the verif-hooks DFA dump; hand-written models validated by the '
                'correspondence run; the reference SGR machine (Decoder/SgrRef.v) as the meaning of SGR. Known finding: parameters 7/27/39/49 '
-               '(inverse, default colours) cannot be expressed by FaceModify. No axioms.',
+               '(inverse, default colours) cannot be expressed by FaceModify (repair = additive public-API change); decided in Coq against '
+               'the recorded behaviour, never suppressed. No axioms.',
  'technique': 'Coq proof (induction over parameter lists and histories, reflection on the regenerated command automaton, finite sweeps '
               'for bit operations) + regenerated tables/automaton + model/implementation correspondence',
  'design_ref': 'DESIGN.md 6.6',
